@@ -37,6 +37,15 @@ spec.loader.exec_module(mod)
 with open(sys.argv[3]) as fid:
     calls = json.load(fid)
 
+# the documented default limits, configured independently of the library's own default instance
+import reprlib  # noqa: E402  pylint: disable=wrong-import-position
+
+REFERENCE = reprlib.Repr()
+for _name in ("maxdict", "maxlist", "maxtuple", "maxset", "maxfrozenset", "maxdeque", "maxarray"):
+    setattr(REFERENCE, _name, 50)
+REFERENCE.maxstring = 256
+REFERENCE.maxother = 256
+
 report = {"hashseed": os.environ.get("PYTHONHASHSEED"), "cases": {}}
 ns = dict(vars(mod))
 rng = random.Random(12345)
@@ -74,6 +83,18 @@ for call in calls:
         rng.shuffle(rest)
         m, _p, _l = violate(name, dict(list(perm) + rest))
         msgs.append(m)
-    report["cases"][name] = {"msgs": msgs, "parts": parts, "logged": logged}
+    mismatches = []
+    n_cmp = 0
+    if not call.get("custom_repr") and parts:
+        for key, value in kwargs.items():
+            prefix = key + " was "
+            for part in parts:
+                if part.startswith(prefix):
+                    n_cmp += 1
+                    want = REFERENCE.repr(value)
+                    if part[len(prefix):] != want:
+                        mismatches.append([key, part[len(prefix):], want])
+    report["cases"][name] = {"msgs": msgs, "parts": parts, "logged": logged, "default_limit_mismatches": mismatches,
+                             "default_limit_comparisons": n_cmp}
 
 print("REPORT=" + json.dumps(report))
